@@ -65,6 +65,11 @@ func runSpec(l *Loaded, spec *CheckSpec, tier, only string, workers int, extra m
 		fmt.Fprintln(os.Stderr, "known findings:", err)
 		return 2
 	}
+	for _, k := range known {
+		if k.Property == spec.Property {
+			knownSigsGlobal[k.Sig] = true
+		}
+	}
 	seed := 0
 	fmt.Sscanf(os.Getenv("VERIF_SEED"), "%d", &seed)
 	exit := 0
